@@ -430,6 +430,69 @@ theorem param_default_validates_partial (skip : Bool) (p : Param) (st : Store)
         unfold paramStep
         rw [hw, this]
 
+/-- **Second validation of all parameters (partial).**  For parameters with pairwise distinct (location, name), none of
+them in one of the classes, a request whose parameters were accepted is accepted again and the second validation
+changes nothing further — whatever the mix of present and defaulted parameters, fail-first or multi-error. -/
+theorem params_second_validation_partial (skip multi : Bool) : ∀ (ps : List Param) (st : Store),
+    keysDistinct ps = true → (∀ p ∈ ps, Regular skip p st = true) → (paramsPhase skip multi ps st).2 = true →
+    paramsPhase skip multi ps (paramsPhase skip multi ps st).1 = ((paramsPhase skip multi ps st).1, true)
+  | [], st, _, _, _ => rfl
+  | p :: ps, st, hk, hr, hok => by
+    simp only [keysDistinct, Bool.and_eq_true, List.all_eq_true, bne_iff_ne, ne_eq] at hk
+    obtain ⟨ok1, ok2, e⟩ := paramsPhase_ok_cons skip multi p ps st hok
+    have hp := hr p (by simp)
+    simp only [Regular, Bool.and_eq_true, Bool.not_eq_true'] at hp
+    -- the later parameters see their own keys as they were
+    have hr' : ∀ q ∈ ps, Regular skip q (paramStep skip p st).1 = true := by
+      intro q hq
+      rw [regular_congr skip q st _ (paramStep_other skip p st q.key (hk.1 q hq)).symm]
+      exact hr q (by simp [hq])
+    have ih := params_second_validation_partial skip multi ps (paramStep skip p st).1 hk.2 hr' ok2
+    rw [e]
+    -- the first parameter sees its own key as its own validation left it
+    have hget : (paramStep skip p st).1.get p.key =
+        (paramsPhase skip multi ps (paramStep skip p st).1).1.get p.key :=
+      (paramsPhase_other skip multi p.key ps _ (fun q hq => fun h => hk.1 q hq h.symm)).symm
+    obtain ⟨c1, c2⟩ := paramStep_congr skip p _ _ hget
+    have s1 := param_idempotent_partial skip p st hp.1.1 hp.1.2
+    have s2 := param_default_validates_partial skip p st hp.1.1 hp.1.2 hp.2 ok1
+    have t1 := c2 s1
+    have t2 := c1.trans s2
+    generalize (paramsPhase skip multi ps (paramStep skip p st).1).1 = stf at *
+    rw [paramsPhase_cons]
+    simp only [t1, t2, Bool.not_true, Bool.false_and, Bool.false_eq_true, ↓reduceIte, ih, Bool.and_self]
+
+/-- **All parameters: forwarded request = spec (partial).**  Under the same hypotheses the parameters of the accepted
+request are exactly the spec's: every absent parameter with a default carries it, nothing else changed. -/
+theorem params_eq_spec_partial (skip multi : Bool) : ∀ (ps : List Param) (st : Store),
+    keysDistinct ps = true → (∀ p ∈ ps, Regular skip p st = true) → (paramsPhase skip multi ps st).2 = true →
+    (paramsPhase skip multi ps st).1 = specParams skip ps st
+  | [], st, _, _, _ => rfl
+  | p :: ps, st, hk, hr, hok => by
+    simp only [keysDistinct, Bool.and_eq_true, List.all_eq_true, bne_iff_ne, ne_eq] at hk
+    obtain ⟨ok1, ok2, e⟩ := paramsPhase_ok_cons skip multi p ps st hok
+    have hp := hr p (by simp)
+    simp only [Regular, Bool.and_eq_true, Bool.not_eq_true'] at hp
+    have hr' : ∀ q ∈ ps, Regular skip q (paramStep skip p st).1 = true := by
+      intro q hq
+      rw [regular_congr skip q st _ (paramStep_other skip p st q.key (hk.1 q hq)).symm]
+      exact hr q (by simp [hq])
+    rw [e, params_eq_spec_partial skip multi ps _ hk.2 hr' ok2,
+      param_step_eq_spec_partial skip p st hp.1.1 hp.1.2 hp.2 ok1]
+    rfl
+
+/-- non-vacuity of the two list theorems: a defaulted query parameter, a present header, a defaulted cookie -/
+example :
+    let ps : List Param := [
+      { name := "q", loc := .query, ty := .sc .integer, dflt := some (.sc (.int 7)), required := false, allowEmpty := false, explode := true },
+      { name := "X-P", loc := .header, ty := .sc .string, dflt := some (.sc (.str "dd")), required := true, allowEmpty := false, explode := false },
+      { name := "ck", loc := .cookie, ty := .sc .boolean, dflt := some (.sc (.bool true)), required := false, allowEmpty := false, explode := true }]
+    let st : Store := [((.header, "X-P"), [.lit (.str "abc")])]
+    keysDistinct ps = true ∧ (∀ p ∈ ps, Regular false p st = true) ∧
+    paramsPhase false false ps st =
+      ([((.header, "X-P"), [.lit (.str "abc")]), ((.query, "q"), [.lit (.int 7)]), ((.cookie, "ck"), [.lit (.bool true)])], true) := by
+  decide
+
 /-- F-C13-3 (new): `?q=` with `q: integer, default 7` — the default is appended, and appended again -/
 theorem witness_empty_present :
     let p : Param := { name := "q", loc := .query, ty := .sc .integer, dflt := some (.sc (.int 7)), required := false, allowEmpty := false, explode := true }
